@@ -53,9 +53,18 @@ RULE = ("cases = (input shape 0-3 d with lengths 0-6, dtype, data seed, chunking
         "distinct = distinct case description.")
 ASSUMPTIONS = ["NumPy 2.x is the reference for stage values", "sync scheduler (threads for a tenth)",
                "np.block / placement by offsets done by the harness"]
-BUDGET = {"quick": 90, "thorough": 900}
-FLOORS = {"quick": {"evaluations": 1, "distinct_nontrivial": 1, "counters": {}, "max_skipped_fraction": 0.5},
-          "thorough": {"evaluations": 1, "distinct_nontrivial": 1, "counters": {}, "max_skipped_fraction": 0.5}}
+BUDGET = {"quick": 45, "thorough": 700}
+# measured on the unchanged tree (quick, seeds 0,1,2,7): 3768 evaluations, ~3000 distinct non-trivial, ~15400 stages, ~145000 blocks,
+# ~30000 reassemblies, 620-760 stages with unknown chunk sizes; ~1.3 % skipped
+FLOORS = {"quick": {"evaluations": 1700, "distinct_nontrivial": 1350,
+                    "counters": {"stages_checked": 7000, "lazy_meta_checked": 7000, "blocks_checked": 65000, "reassembled": 13500,
+                                 "compared_with_numpy": 7000, "joint_computes": 1700, "stages_unknown_chunks": 280,
+                                 "pipelines_len_2": 900, "pipelines_len_6": 190},
+                    "max_skipped_fraction": 0.1},
+          "thorough": {"evaluations": 19000, "distinct_nontrivial": 15000,
+                       "counters": {"stages_checked": 90000, "blocks_checked": 900000, "reassembled": 180000, "compared_with_numpy": 90000,
+                                    "stages_unknown_chunks": 5000},
+                       "max_skipped_fraction": 0.1}}
 EXHAUSTIVE_SPACE = "every 2-step pipeline over a fixed list of 14 steps x all 8 chunkings of a (2,3) int64 array (1568 programs)"
 CLAIM = ("Every program-visible stage of every generated pipeline was computed by the real dask.array, whole (all stages in one "
          "dask.compute) and block by block (.blocks and to_delayed), and compared with its own lazy shape/dtype/chunks, with the "
